@@ -6,6 +6,7 @@ mod c05;
 mod c06;
 mod c07;
 mod c08;
+mod jsexec;
 mod c09;
 mod c10;
 mod c11;
